@@ -52,6 +52,7 @@ struct Outcome {
     std::vector<Viol> viols;
     std::map<std::string, long> probes, excl, faults;
     uint64_t h_sched = 0, h_obs = 0, h_shape = 0;
+    uint64_t h_out = 0;              // outputs only (info, permutations, factors, X, B, expert-driver scalars): no events
     long steps = 0, decisions = 0, switches = 0, events = 0;
     std::vector<std::vector<uint16_t>> decisions_log; // per op
     J sample;                        // short description of the case
